@@ -1,0 +1,38 @@
+//go:build verif
+
+package query
+
+// Contracts for the filter expression builder (C20: filter values are data, never SQL).
+// sqlSafe is declared in /verif/contracts/extern/sql.contracts.
+
+//@ spec MatcherSpec(key, operator, value)
+//@   ensures err == nil ==> sqlSafe(ret0) // C20
+
+// every value of type ContextFn is a function that returns SQL-safe text (checked at every conversion)
+//@ typespec query.ContextFn MatcherSpec // C20
+
+// the connective of a set is program text ("and"/"or"), never the client's
+//@ typeinv query.set: sqlSafe(self.operator) // C20
+
+// the comparison operators are program text
+//@ globalinv query.DefaultComparisonOperatorsMapping: forall k string :: sqlSafe(self[k]) // C20
+
+//@ iface query.Context.BuildMatcher
+//@   implementers
+//@   property C20
+//@   ensures err == nil ==> sqlSafe(ret0)
+
+//@ iface query.Builder.Build
+//@   implementers
+//@   property C20
+//@   ensures err == nil ==> sqlSafe(ret0)
+
+//@ func (query.set).Build
+//@   property C20
+//@   loop 1 invariant allSafe(clauses)
+
+// parseSet is only called for the operators "$and" and "$or"
+//@ func query.parseSet
+//@   property C20
+//@   requires sqlSafe(operator)
+//@   loop 1 invariant sqlSafe(set.operator)
